@@ -75,6 +75,7 @@ static void guest_callcb(Sbx::T_PointerType cb) { Sbx::guest_call_callback<void>
 void callslot(unsigned);
 static void guest_callslot(uint32_t slot) { Sbx::guest_call_callback<void>(Sbx::CB_BASE + slot); }
 static const rlbox::verif_lib g_lib = { { "f5", (void*)0x1005 }, { "f6", (void*)0x1006 }, { "f7", (void*)0x1007 } };
+void f5(); void f6(); void f7();   // only named (decltype + spelling) by get_sandbox_function_address
 static thread_local char g_namebuf[8];   // a caller-owned name buffer that is reused for every by-name lookup ("lb"/"ilb")
 #endif
 
@@ -137,7 +138,7 @@ static std::string run_case(const toks_t& t)
 #endif
         } else if (c == "go" && (owners[std::stoi(o[1])].is_unregistered() || !created[own_sb[std::stoi(o[1])]])) {
           out += owners[std::stoi(o[1])].is_unregistered() ? "go=dead" : "go=notcreated";
-        } else if ((c == "l" || c == "il" || c == "gs" || c == "lb" || c == "ilb") && !created[std::stoi(o[1])]) {
+        } else if ((c == "l" || c == "il" || c == "gs" || c == "lb" || c == "ilb" || c == "fa") && !created[std::stoi(o[1])]) {
           // invoking / looking up on a sandbox that is not created is outside the API contract: not exercised
           out += c + "=notcreated";
         } else if (c == "l" || c == "il") {
@@ -162,6 +163,19 @@ static std::string run_case(const toks_t& t)
           std::snprintf(g_namebuf, sizeof(g_namebuf), "f%s", o[2].c_str());
           void* a = (c == "lb") ? sb[i]->lookup_symbol(g_namebuf) : sb[i]->internal_lookup_symbol(g_namebuf);
           out += c + "=" + (impl->lookups > before ? "asked" : "cached") + ":" + std::to_string(reinterpret_cast<uintptr_t>(a) - 0x1000);
+#endif
+        } else if (c == "fa") {
+#ifdef LIFE_NOOP
+          out += c + "=skip";
+#else
+          // sandbox_function_address: the tainted function pointer holds the back end's address of the named function
+          int i = std::stoi(o[1]), n = std::stoi(o[2]);
+          auto impl = sb[i]->get_sandbox_impl();
+          int before = impl->lookups;
+          // (this driver is built with static calls for its own guest functions; what follows is the by-name expansion of the macro)
+#  define LIFE_FA(f) sb[i]->template INTERNAL_get_sandbox_function_name<decltype(f)>(#f)
+          rlbox::tainted<void (*)(), Sbx> p = n == 5 ? LIFE_FA(f5) : n == 6 ? LIFE_FA(f6) : LIFE_FA(f7);
+          out += c + "=" + (impl->lookups > before ? "asked" : "cached") + ":" + std::to_string(reinterpret_cast<uintptr_t>(p.UNSAFE_unverified()) - 0x1000);
 #endif
         } else if (c == "r") {
           int j = std::stoi(o[1]), i = std::stoi(o[2]), k = std::stoi(o[3]);
